@@ -11,7 +11,9 @@ import (
 	"os"
 	"path/filepath"
 	"regexp"
+	"sort"
 	"strings"
+	"time"
 
 	"github.com/openziti/storage/ast"
 	"github.com/openziti/storage/boltz"
@@ -99,6 +101,10 @@ func (r *Run) evalHelper(op Op) (res string) {
 	}()
 	switch op.K {
 	case "parse":
+		if op.N < 0 {
+			// a datetime literal nobody has parsed before in this process (drawn from the plan's seed)
+			return renderParse(r.st.ByName(op.S), fmt.Sprintf(`createdAt > datetime(%s) and updatedAt < datetime(%s)`, op.Name, op.Q))
+		}
 		return renderParse(r.st.ByName(op.S), helperQueries[op.N%len(helperQueries)])
 	case "symbol":
 		return renderSymbol(r.st.ByName(op.S), helperSymbols[op.N%len(helperSymbols)])
@@ -117,6 +123,9 @@ func (r *Run) helperPrologue() {
 				continue
 			}
 			for _, op := range tx.Ops {
+				if op.K == "parse" && op.N < 0 {
+					continue // first evaluated concurrently, compared with a serial evaluation after the run
+				}
 				k := op.String()
 				if _, ok := r.helperExp[k]; !ok {
 					r.helperExp[k] = r.evalHelper(op)
@@ -130,8 +139,17 @@ func (r *Run) execHelperTx(t *Task, idx int, tx *TxPlan) {
 	for i, op := range tx.Ops {
 		t.Yield("helper.step", NeedNone)
 		got := r.evalHelper(op)
-		want := r.helperExp[op.String()]
+		want, pinned := r.helperExp[op.String()]
 		r.bump(&r.res.Trans, "helper:"+op.K+"/"+op.S+"//")
+		if !pinned {
+			r.mu.Lock()
+			if r.helperSeen == nil {
+				r.helperSeen = map[string][]string{}
+			}
+			r.helperSeen[op.String()] = append(r.helperSeen[op.String()], got)
+			r.mu.Unlock()
+			continue
+		}
 		if got != want {
 			r.violate(Violation{Props: []string{"C18"}, Oracle: "helpers", Sig: "helper-result-differs:" + op.K,
 				Detail: fmt.Sprintf("%s.%d step %d %s under concurrency:\n   got:    %s\n   serial: %s", t.Name, idx, i, op, got, want)})
@@ -141,9 +159,37 @@ func (r *Run) execHelperTx(t *Task, idx int, tx *TxPlan) {
 	t.Yield("helper.end", NeedNone)
 }
 
+// helperEpilogue: calls whose first evaluation happened under concurrency are evaluated once more, serially.
+func (r *Run) helperEpilogue() {
+	var keys []string
+	for k := range r.helperSeen {
+		keys = append(keys, k)
+	}
+	sort.Strings(keys)
+	for _, k := range keys {
+		var op Op
+		if jsonUnmarshal(k, &op) != nil {
+			continue
+		}
+		want := r.evalHelper(op)
+		for _, got := range r.helperSeen[k] {
+			if got != want {
+				r.viols = append(r.viols, Violation{Props: []string{"C18"}, Oracle: "helpers", Sig: "helper-result-differs:" + op.K,
+					Detail: fmt.Sprintf("%s under concurrency:\n   got:    %s\n   serial: %s", op, got, want)})
+				return
+			}
+		}
+	}
+}
+
 func (g *gen) genHelpers(n int) []Op {
 	var ops []Op
 	for i := 0; i < n; i++ {
+		if g.r.IntN(3) == 0 {
+			lit := func() string { return time.Unix(946684800+int64(g.r.IntN(1<<30)), 0).UTC().Format(time.RFC3339) }
+			ops = append(ops, Op{K: "parse", S: StPeople, N: -1, Name: lit(), Q: lit()})
+			continue
+		}
 		switch g.r.IntN(4) {
 		case 0, 1:
 			ops = append(ops, Op{K: "parse", S: pick(g.r, []string{StPeople, StPeople, StStaff, StGroups}), N: g.r.IntN(len(helperQueries))})
@@ -200,7 +246,7 @@ func newRaceReports() (own []string, foreign int) {
 	return own, foreign
 }
 
-var frameRe = regexp.MustCompile(`(?m)^  (github\.com/openziti/storage/[^\s(]+)`)
+var frameRe = regexp.MustCompile(`(?m)^  (github\.com/openziti/storage/\S+)\(\)$`)
 
 // raceSignature: the first repository function in the report (stable across runs).
 func raceSignature(report string) string {
